@@ -155,7 +155,7 @@ def map_phase(ctx, part):
     for ci, (m, a) in enumerate(combos):
         cfgp = ctx.path("xcfg-%d.json" % ci)
         json.dump({"index": {"metric": m, "algo": a, "M": 1, "MMax": 1, "MMax0": 2}, "np": 3, "dim": 3, "keys": ["a"],
-                   "vals": 4, "ks": [1, 3], "nids": 3, "maxlvl": 1, "full": "last"}, open(cfgp, "w"))
+                   "vals": 4, "ks": [1, 3], "nids": 3, "maxlvl": 1, "full": "last", "ids": (ctx.seed + ci) % 4}, open(cfgp, "w"))
         trace = ctx.path("xtrace-%d.ndjson" % ci)
         ctx.run([part, "explore", cfgp, hist_path, trace, str(ctx.seed), "12" if quick else "40"], timeout=1500)
         txt = write_rank_module(ctx, part, m, 3, 3)
@@ -220,7 +220,7 @@ def hnsw_phase(ctx, part):
             # holds all of them for the first combo, a seed-dependent 1/stride sample for the others
             stride = 1 if ci == 0 else ((3 if not exact else 6) if quick else 2)
             icfg = {"index": {"metric": m, "algo": a, "M": 1, "MMax": 1, "MMax0": 2}, "np": np_, "dim": dim,
-                    "keys": ["a"], "ks": [1, 2], "full": "last", "stride": stride, "offset": ctx.seed + ci}
+                    "keys": ["a"], "ks": [1, 2], "full": "last", "stride": stride, "offset": ctx.seed + ci, "ids": (ctx.seed + ci) % 4}
             trace = ctx.path("trace-%s-%s.ndjson" % (m, a))
             driftp = ctx.path("drift-%s-%s.json" % (m, a))
 
@@ -261,7 +261,7 @@ def streams_phase(ctx, part):
                                    [("euclidean", "simple", 2), ("cosine", "heuristic", 3), ("manhattan", "simple", 16)]):
         cfgp = ctx.path("scfg-%d.json" % ci)
         json.dump({"index": {"metric": m, "algo": a, "M": M, "MMax": M, "MMax0": 2 * M}, "np": 12, "dim": 5,
-                   "nids": 9, "maxlvl": 2}, open(cfgp, "w"))
+                   "nids": 9, "maxlvl": 2, "ids": (ctx.seed + ci) % 4}, open(cfgp, "w"))
         trace = ctx.path("strace-%d.ndjson" % ci)
         rank = ctx.path("srank-%d.tla" % ci)
         n = 54 if quick else 540
@@ -385,7 +385,7 @@ def random_phase(ctx, part):
         cfgp = ctx.path("rcfg-%d.json" % i)
         json.dump({"index": {"metric": m, "algo": a, "M": M, "MMax": mm, "MMax0": mm0, "ef": ef, "efc": efc},
                    "np": np_, "dim": 4, "keys": ["a", "b"], "vals": 4, "ks": [1, 3, nids], "full": "some",
-                   "nids": nids, "maxlvl": maxlvl}, open(cfgp, "w"))
+                   "nids": nids, "maxlvl": maxlvl, "ids": (ctx.seed + i) % 4}, open(cfgp, "w"))
         trace = ctx.path("rtrace-%d.ndjson" % i)
         rank = ctx.path("rrank-%d.tla" % i)
         ctx.run([part, "random", cfgp, str(n), str(maxlen), str(ctx.seed * 1000 + i), trace, rank], timeout=1500)
